@@ -2,6 +2,7 @@ package main
 
 import (
 	"fmt"
+	"go/types"
 	"sort"
 	"strings"
 
@@ -197,6 +198,52 @@ func checkC27(r *Run) {
 		req("signature equals HMAC(secret, payload)", "base64.Encoding.EncodeToString(base64.RawURLEncoding, iface:hash.Hash.Sum(hmac.New(sha256.New, api.csrfSecretKey), nil)) == "+tp+"[1]"),
 		req("payload parses", "ok(json.Unmarshal(*))"),
 		req("not expired", "!time.Time.After(time.Now(), *ExpiresAt)"))
+	// the node's access-control settings reach api.Config unconditionally and under their own names: what
+	// createGUI hands to api.Create / api.CreateHTTPS is one literal holding the configured values
+	if fn := r.fn("C27-R2", "skycoin.Coin.createGUI"); fn != nil {
+		nC := 0
+		for _, callee := range []string{"api.Create", "api.CreateHTTPS"} {
+			for _, cs := range r.CallSites(fn, callee) {
+				nC++
+				t := r.argTerm(cs, 1) + ","
+				for _, pr := range [][2]string{{"Username", "WebInterfaceUsername"}, {"Password", "WebInterfacePassword"}, {"DisableCSRF", "DisableCSRF"}, {"DisableHeaderCheck", "DisableHeaderCheck"}, {"EnabledAPISets", "enabledAPISets"}, {"HostWhitelist", "hostWhitelist"}} {
+					want := " " + pr[0] + ": $0.config.Node." + pr[1] + ","
+					r.Check("C27-R2", "skycoin.Coin.createGUI -> "+callee+": api.Config."+pr[0]+" is the node's "+pr[1]+", copied unconditionally", r.P.Pos(cs.Pos()), strings.Contains(" "+strings.TrimPrefix(t, "{"), want) || strings.Contains(t, "{"+pr[0]+": $0.config.Node."+pr[1]+","), trunc(t, 300))
+				}
+			}
+		}
+		r.Check("C27-R2", "skycoin.Coin.createGUI: API server constructors called", r.P.Pos(fn.Pos()), nC == 2, fmt.Sprint(nC))
+		// ... unconditionally: each of those fields is assigned on every path to the constructor calls
+		sec := map[string]bool{"Username": true, "Password": true, "DisableCSRF": true, "DisableHeaderCheck": true, "EnabledAPISets": true, "HostWhitelist": true}
+		nSt := 0
+		for _, b := range fn.Blocks {
+			for _, in := range b.Instrs {
+				st, ok := in.(*ssa.Store)
+				if !ok {
+					continue
+				}
+				fa, ok := st.Addr.(*ssa.FieldAddr)
+				if !ok {
+					continue
+				}
+				sty := derefStruct(fa.X.Type())
+				if sty == nil || !sec[sty.Field(fa.Field).Name()] || !strings.HasSuffix(types.TypeString(derefType(fa.X.Type()), nil), "/api.Config") {
+					continue
+				}
+				nSt++
+				dom := true
+				for _, callee := range []string{"api.Create", "api.CreateHTTPS"} {
+					for _, cs := range r.CallSites(fn, callee) {
+						if b != cs.Block() && !b.Dominates(cs.Block()) {
+							dom = false
+						}
+					}
+				}
+				r.Check("C27-R2", "skycoin.Coin.createGUI: api.Config."+sty.Field(fa.Field).Name()+" is set on every path to the API server constructors", r.P.Pos(in.Pos()), dom, "the setting is copied only under a condition: with the condition false the server runs with the zero value (check disabled)")
+			}
+		}
+		r.Check("C27-R2", "skycoin.Coin.createGUI: security-relevant api.Config assignments", r.P.Pos(fn.Pos()), nSt >= 6, fmt.Sprint(nSt))
+	}
 	// the access-control configuration reaches the mux exactly as the caller gave it: create() copies each
 	// security-relevant Config field into muxConfig unchanged and never rewrites it (no silent defaults)
 	if fn := r.fn("C27-R2", "api.create"); fn != nil {
